@@ -132,7 +132,7 @@ class Sids:
 
 
 # ---------------------------------------------------------------- Coq rendering
-RES = {"ok": "ROk", "err": "RErr", "fb": "RFBefore", "fa": "RFAfter"}
+RES = {"ok": "ROk", "err": "RErr", "fb": "RFBefore", "fa": "RFAfter", "fp": "RFPartial"}
 
 
 def coq_event(e, sids, cloud):
@@ -192,14 +192,15 @@ def coq_log(log, sids, cloud, ids_of):
 def coq_os(f):
     if not f:
         return "[]"
-    pts = sorted([(f["n"], f["kind"])] + [(g["n"], g["kind"]) for g in f.get("also") or []])
+    pts = sorted([(f["n"], f["kind"], f.get("skip") or [])] + [(g["n"], g["kind"], g.get("skip") or []) for g in f.get("also") or []])
     out, pos = [], 0
-    for n, kind in pts:
+    for n, kind, skip in pts:
         if n < pos:
             continue
         if f.get("dead_from") and n >= f["dead_from"]:
             break
-        out.append("fault_at %d%%nat %s" % (n - pos, "OBefore" if kind == "before" else "OAfter"))
+        o = {"before": "OBefore", "after": "OAfter"}.get(kind) or "(OPartial [%s])" % "; ".join(coq_bool(b) for b in skip)
+        out.append("fault_at %d%%nat %s" % (n - pos, o))
         pos = n + 1
     if f.get("dead_from"):
         out.append("repeat OOk %d%%nat ++ repeat OBefore 400%%nat" % max(0, f["dead_from"] - pos))
@@ -215,6 +216,7 @@ def coq_bool(b):
 
 
 def coq_cat(final):
+    """one host's catalogue"""
     objs = []
     for o in sorted(final["objs"], key=lambda o: o["name"].encode()):
         objs.append("(%s, {| o_kind := %s; o_engine := %s; o_repl := %s; o_cols := %s; o_okey := %s; o_to := %s; o_def := %d |})" % (
@@ -238,24 +240,27 @@ def eval_cases(ck, name, cases, sids):
     items = []
     for c in cases:
         cloud = c["cfg"]["cloud"]
-        key = json.dumps([c["final"]["objs"], c["final"]["rows"]], sort_keys=True)
-        if key not in cats:
-            cats[key] = "cat_%d" % len(cats)
-            defs.append("Definition %s : cat := %s." % (cats[key], coq_cat(c["final"])))
+        hosts = []
+        for h in c["final"]["hosts"]:
+            key = json.dumps([h["objs"], h["rows"]], sort_keys=True)
+            if key not in cats:
+                cats[key] = "cat_%d" % len(cats)
+                defs.append("Definition %s : cat := %s." % (cats[key], coq_cat(h)))
+            hosts.append(cats[key])
         runs = []
         for r in c["runs"]:
             runs.append("{| or_os := %s; or_ok := %s; or_items := %s |}" % (
                 coq_os(r.get("fault")), coq_bool(r["ok"]), coq_log(r["log"], sids, cloud, sids.ids_of)))
-        items.append("{| c_id := %d%%Z; c_cfg := %s; c_runs := [%s]; c_clean := true; c_cat := %s; c_ver_tbl := %s; c_vd_tbl := %s; c_vers := %s |}" % (
-            c["id"], coq_cfg(c["cfg"]), ";\n    ".join(runs), cats[key], coq_bool(c["final"]["ver_tbl"]), coq_bool(c["final"]["vd_tbl"]),
+        items.append("{| c_id := %d%%Z; c_cfg := %s; c_nhosts := %d%%nat; c_runs := [%s]; c_clean := true; c_hosts := [%s]; c_ver_tbl := %s; c_vd_tbl := %s; c_vers := %s |}" % (
+            c["id"], coq_cfg(c["cfg"]), max(1, c.get("nhosts") or 1), ";\n    ".join(runs), "; ".join(hosts), coq_bool(c["final"]["ver_tbl"]), coq_bool(c["final"]["vd_tbl"]),
             coq_vers(c["final"]["vers"])))
     txt = ("From Coq Require Import List String NArith ZArith Bool.\n"
            "From Qryn Require Import model.Migrate gen.GenScripts.\nImport ListNotations.\n"
            "Open Scope string_scope.\nOpen Scope list_scope.\nOpen Scope N_scope.\n"
            + "\n".join(defs) + "\n"
            "Definition cases : list (case) := [\n  " + ";\n  ".join(items) + "].\n"
-           "Definition M := Eval vm_compute in mismatches gen_scripts gen_sids cases.\nPrint M.\n"
-           "Definition V := Eval vm_compute in spec_violations gen_scripts gen_sids cases.\nPrint V.\n")
+           "Definition M := Eval vm_compute in mismatches gen_scripts gen_oncluster gen_sids cases.\nPrint M.\n"
+           "Definition V := Eval vm_compute in spec_violations gen_scripts gen_oncluster gen_sids cases.\nPrint V.\n")
     rc, out = ck.coq_eval(name, txt)
     if rc != 0:
         return None, None, out
@@ -269,7 +274,7 @@ def eval_cases(ck, name, cases, sids):
     return mism, viol, out
 
 
-SPEC_CODE = {1: "a version was recorded ahead of the scripts applied (e.g. for a script whose execution failed), or a script was applied out of file order, "
+SPEC_CODE = {1: "a version was recorded ahead of the scripts applied (e.g. for a script whose execution failed or completed on some hosts only), or a script was sent out of file order, "
                 "or a script whose version is already recorded was run again, or a statement that is in none of the streams took effect",
              2: "a start without failures did not complete (initialisation stays broken after the earlier failure)",
              3: "the completed initialisation ended in a different schema / versions than an uninterrupted one",
@@ -285,6 +290,11 @@ def first_bad(ck):
             i, coq_bool(c["cloud"]), coq_cfg(c), i))
     txt = ("From Coq Require Import List String NArith ZArith Bool.\nFrom Qryn Require Import model.Migrate gen.GenScripts.\n"
            "Import ListNotations.\n" + "\n".join(lines) + "\n")
+    for i, (_, c) in enumerate(MAIN_CFGS):
+        lines.append("Definition C%d := Eval vm_compute in cl_first_bad_streams cat stmt (exec_ch %s) cat_eqb (cl_scripts gen_scripts gen_oncluster %s) (streams_of %s) cat0 cat0.\nPrint C%d." % (
+            i, coq_bool(c["cloud"]), coq_cfg(c), coq_cfg(c), i))
+    txt = ("From Coq Require Import List String NArith ZArith Bool.\nFrom Qryn Require Import model.Migrate gen.GenScripts.\n"
+           "Import ListNotations.\n" + "\n".join(lines) + "\n")
     rc, out = ck.coq_eval("C18_%s_%d_first_bad" % (vcheck.repo_tag(), os.getpid()), txt)
     res = []
     if rc != 0:
@@ -295,6 +305,11 @@ def first_bad(ck):
         m = re.search(r"B%d = Some \((\w+), (\d+), (true|false)\)" % i, flat)
         if m:
             res.append({"cfg_name": name, "cfg": c, "k": ctor_k[m.group(1)], "idx": int(m.group(2)), "not_reexecutable": m.group(3) == "true"})
+        # the cluster obligation: (stream, (index, on the connected host?, accepted once but not re-executable?))
+        m = re.search(r"C%d = Some \((\w+), \((\d+), (true|false), (true|false)\)\)" % i, flat)
+        if m and m.group(3) == "false":
+            res.append({"cfg_name": name, "cfg": c, "k": ctor_k[m.group(1)], "idx": int(m.group(2)), "not_reexecutable": m.group(4) == "true",
+                        "other_host": True})
     return res, out
 
 
@@ -315,10 +330,14 @@ def run(ck):
     ck.trusted += [
         "C18: what ClickHouse does with each statement class when executed / re-executed (Migrate.exec_ch: IF [NOT] EXISTS guards, RENAME, "
         "ADD COLUMN, MODIFY ORDER BY prefix rule, view/MV source existence) is modelled, not observed -- no ClickHouse binary in the sandbox; "
-        "each statement is atomic; ON CLUSTER fan-out and replication lag are not modelled (one server)",
+        "each statement is atomic on one host; a cluster is a list of independent host catalogues: an ON CLUSTER statement runs on any subset of the hosts "
+        "(caller sees an error unless all ran and accepted it), a statement without ON CLUSTER on the connected host only; a host that catches up "
+        "later (ON CLUSTER timeout, 'executes in background') does so in DDL-queue order, i.e. before the re-sent statement -- covered as a smaller skip set; "
+        "replication of data / metadata between replicas of one shard is not modelled",
         "C18: the statement classifier (translate/gen_scripts, ported in harness/cmd/migrate/classify.go); column types, codecs, partition keys, "
         "TTL and SETTINGS clauses are not part of the modelled schema (names, kinds, engines, columns, sorting keys, view definitions by digest are)",
-        "C18: ver/ver_dist behave as one table on one server (Distributed ver_dist over ver); max(ver) of an empty table is 0",
+        "C18: the process always connects to the same host; ver rows live there (INSERT INTO ver has no ON CLUSTER) and ver_dist reads them; "
+        "max(ver) of an empty table is 0",
     ]
     env = dict(os.environ)
     env["VERIF_REPO"] = vcheck.REPO
@@ -404,6 +423,12 @@ def run(ck):
                     continue
                 w = {"id": 0, "class": "witness", "cfg": b["cfg"], "faults": [{"n": pos, "kind": "after"}] if b["not_reexecutable"] else [],
                      "why": "%s statement #%d: %s" % (STREAM_FILE[b["k"]], b["idx"], "not re-executable after itself" if b["not_reexecutable"] else "rejected in file order")}
+                if b.get("other_host"):
+                    # a host that only receives the ON CLUSTER statements: let the statement complete there and not on the connected host
+                    w["nhosts"] = 2
+                    w["why"] += " on a host other than the connected one"
+                    if b["not_reexecutable"]:
+                        w["faults"] = [{"n": pos, "kind": "partial", "skip": [True, False]}]
                 witnesses.append(w)
                 f.write(json.dumps(w) + "\n")
         if witnesses:
@@ -420,6 +445,11 @@ def run(ck):
     rc, out = ck.go_run("migrate", ["--seed", ck.seed, "--errtexts", pool_file, "--targeted", ck.n(1, 3), "--out", tg_out])
     if ck.obligation("harness migrate ran (failures with each error value)", rc == 0, out[-1500:]):
         cases += take(tg_out)
+
+    pa_out = os.path.join(ck.work, "partial.jsonl")
+    rc, out = ck.go_run("migrate", ["--seed", ck.seed, "--partial", ck.n(3, 1), "--out", pa_out])
+    if ck.obligation("harness migrate ran (ON CLUSTER statements completing on some hosts only)", rc == 0, out[-1500:]):
+        cases += take(pa_out)
 
     gen_out = os.path.join(ck.work, "gen.jsonl")
     n = ck.n(200, 3000)
@@ -504,8 +534,10 @@ def run(ck):
                     points.add((json.dumps(c["cfg"], sort_keys=True), e["t"], e.get("k", 0), json.dumps(e.get("stmt")), e.get("v", 0), f["kind"]))
     ck.coverage["evaluations"] += len(cases)
     ck.coverage["distinct_nontrivial"] += len(distinct)
-    ck.coverage["rule"] += ("cases = configuration (single / cloud / clustered / cloud+clustered, rarely the two inconsistent mixes) x 0..5 interrupted starts, "
-                            "each failing one database call (drawn among the calls that start would really make; 60% after the effect, 40% before), then two undisturbed starts; "
+    ck.coverage["rule"] += ("cases = configuration (single / cloud / clustered / cloud+clustered, rarely the two inconsistent mixes; 1-3 hosts when clustered) x 0..5 interrupted starts, "
+                            "each failing one database call (drawn among the calls that start would really make; 60% after the effect, 40% before; with several hosts 40% "
+                            "'completed on a random subset of the hosts, caller gets the ON CLUSTER timeout'), then two undisturbed starts; "
+                            "plus, per clustered configuration, one in three (thorough: every) script statements of a first start cut short on a random host subset, half of them again at the resume statement; "
                             "thorough tier adds every call x {before, after} of a first start in the four main configurations. "
                             "non-trivial = at least one injected failure; distinct by (configuration, failure list). ")
     ck.extra["input_distribution"] = hist
